@@ -183,7 +183,7 @@ DROP_TABLE = {
     'functions::object_delete_jsonb': ('the key is in the set', lambda cs: has(cs, 'contains', True)),
     'functions::object_pick_jsonb': ('the key is not in the set', lambda cs: has(cs, 'contains', False)),
     'functions::strip_nulls_object': ('the member value is null', lambda cs: any('type_code' in show(c[0]) and c[1] == 'eq' and c[2] == 0 for c in cs)),
-    'functions::array_distinct_jsonb': ('the element was seen before', lambda cs: has(cs, 'contains', True)),
+    'functions::array_distinct_jsonb': ('the element was seen before', lambda cs: has(cs, 'contains', True) or has(cs, 'insert', False) or has(cs, 'contains_key', True)),
     'functions::array_intersection_jsonb': ('the element has no remaining match in the second list', lambda cs: True),
     'functions::array_except_jsonb': ('the element has a remaining match in the second list', lambda cs: True),
     'functions::object_insert_jsonb': ('prefix copy loop', lambda cs: True),
@@ -400,12 +400,21 @@ def r07_4(ctx, run, rule='R07.4'):
                         d = lin_sub(lin(r[2][1]), lin(r[2][0]))
                         s0 = show(r[2][0])
                         # offset and length fields of the same popped position
-                        same = len(d[0]) == 1 and d[1] == 0 and 'pop_front' in s0 and all('pop_front' in show(a) for a in d[0])
+                        # offset and length are two components of one and the same item (the popped / drained position)
+                        from pat import access_path
+                        same = False
+                        if len(d[0]) == 1 and d[1] == 0 and list(d[0].values()) == [1]:
+                            r0, st0 = access_path(strip_casts(r[2][0]))
+                            r1, st1 = access_path(strip_casts(list(d[0])[0]))
+                            same = r0 == r1 and st0 and st1 and st0[:-1] == st1[:-1] and st0 != st1
                         if same:
                             okc += 1
                         else:
                             bad.append(show(r)[:80])
-        (run.proved if okc and not bad else run.violation)(rule, b.path, 'copy-range', 'copies root[offset .. offset + length] of the popped position' if okc and not bad else f'copies {bad[:2]}', f'{b.file}:{b.line}')
+        if not okc and not bad:
+            run.undecided(rule, b.path, 'copy-range', 'no copy of a sub-range of the root document was found in this writer (moved to a helper?): what it copies is not decided', f'{b.file}:{b.line}')
+        else:
+            (run.proved if okc and not bad else run.violation)(rule, b.path, 'copy-range', 'copies root[offset .. offset + length] of the popped position' if okc and not bad else f'copies {bad[:2]}', f'{b.file}:{b.line}')
 
 
 def position_pair_ok(b, off, ln):
